@@ -12,6 +12,7 @@ from __future__ import annotations
 import asyncio
 from typing import TYPE_CHECKING
 
+from exabgp.bgp.fsm import FSM
 from exabgp.protocol.ip import IP
 from exabgp.protocol.family import Family
 from exabgp.bgp.message.update.collection import validate_announce_nlri
@@ -88,8 +89,9 @@ def register_flush_callbacks(peers: list[str], reactor: 'Reactor', sync_mode: bo
     if sync_mode:
         for peer_key in peers:
             peer = reactor._peers.get(peer_key)
-            # Only wait for peers with active session and RIB
-            if peer and peer.proto and peer.proto.connection and peer.neighbor.rib:
+            # Only wait for peers with an established session and RIB: a peer which is still connecting or
+            # exchanging OPENs sends no UPDATE and would never release the command
+            if peer and peer.proto and peer.proto.connection and peer.neighbor.rib and peer.fsm == FSM.ESTABLISHED:
                 event = peer.neighbor.rib.outgoing.register_flush_callback()
                 flush_events.append(event)
                 log.debug(lazymsg('sync.callback.registered peer={p}', p=peer_key), 'api')
